@@ -10,6 +10,8 @@ def extract_all():
     gen.extract()
     from . import pyc
     pyc.extract()
+    from . import conc
+    conc.extract()
     from . import memo
     memo.extract()
     from . import infer
